@@ -88,6 +88,22 @@ DESC = {
     'C18-g': 'wrapper placeholder member loses the Deferred flag (`~op >>>` merges into the previous step)',
     'C19-h': 'success flags of a step with more than 32 active branches built with vec!',
     'C20-g': 'thread-local "last matched operator" hint tried first (`=>` wins over `=>[]` after a history ending in `=>`)', 'C20-h': 'thread-local registry of let names cleared only on the success path',
+    # round 6
+    'C01-h': 'initial operand no longer parenthesised when it is a unary / reference expression (`-x ..abs()` = -(x.abs()))', 'C01-i': '`..` followed by an integer literal read as a range (tuple field access `pair ..0` breaks)',
+    'C02-h': 'wrapper placeholder member built afresh (loses Deferred): `~X >>>` nests inside the wrappers still open', 'C03-e': 'try macros: `~<|`, `~<=`, `~!>` do not start a step',
+    'C04-g': 'indexed step result chosen by total branch count: try-async lone non-final step reads `.0` of a bare value', 'C05-g': 'success flags / arms built from the first N result variables (position used as branch index)',
+    'C06-h': 'success flags over all result variables, arms keyed by active position, fall-through arm runs the next step', 'C07-g': '`__spawn_tokio` returns a boxed non-Send future (task-spawning macro futures are !Send)',
+    'C07-h': 'thread name capped at 96 bytes by byte slicing (long non-ASCII caller name panics)', 'C08-k': 'initial value hoisted to the caller when a later instant operator of step 0 has a block operand',
+    'C09-k': 'on a current-thread runtime the branch is polled in place instead of being spawned (runtime flavour query)', 'C10-j': '`let x = a || b`: everything right of the first lazy operator dropped',
+    'C11-k': 'Err-side hoisted operand named with swapped (branch, position) indices', 'C11-l': 'labelled blocks no longer recognised as block operands',
+    'C12-j': 'hoisted-name cache: a capture at the same in-step position of a later step is dropped (stale name values)', 'C12-k': '`let` looked for one level deep only (`let a = x || y || z`)',
+    'C13-i': 'async macros: non-closure handler operand evaluated when the future is constructed', 'C13-j': 'handlers in front of the first branch parsed in the option loop (duplicates accepted, last wins)',
+    'C14-k': 'determiner table skipped when the next token is not punctuation (handler after a block operand without comma)', 'C14-l': 'an operand that is a single number literal swallows a following `..`',
+    'C15-k': 'let name re-created with Ident::new (raw identifiers panic)', 'C15-l': 'wrapper balance not reset at `~op >>>` (unmatched `<<<` reaches a generator panic)',
+    'C16-k': 'non-macro custom joiner bound once with `let` (generic fn instantiated by the first joined step)', 'C16-l': 'option loop progress flag not set by lazy_branches (lazy_branches first ends the option section)',
+    'C17-k': '`-> {block}` operands not hoisted', 'C17-l': '`std::thread::current()` without leading `::` in the thread-builder helper',
+    'C18-h': '`let x = a || b`: right operand (and its panic) dropped', 'C19-i': '`~??` in sync macros borrows `{ prev }` and moves it again (requires Copy)',
+    'C20-i': 'helper definitions memoised behind a Mutex whose guard is alive across a panicking misconfigured expansion (poisoned afterwards)',
 }
 rows = []
 for m in sorted(os.listdir(os.path.join(V, "seeded"))):
